@@ -203,7 +203,9 @@ impl Builder {
 
     pub fn json_value(&mut self, depth: u32) -> serde_json::Value {
         use serde_json::Value;
-        let strs = ["", "a", "paseto", "\u{0}", "é\u{1F600}", "\"quoted\\\"", "line\nbreak", "exp"];
+        // incl. strings that look like JSON structure or end in a backslash (what a scanner over the raw
+        // bytes has to step over correctly)
+        let strs = ["", "a", "paseto", "\u{0}", "é\u{1F600}", "\"quoted\\\"", "line\nbreak", "exp", "C:\\keys\\", "}}", "]]", "{[", "\\", "\\\\", "\"", "}", "]", "{\"a\":", "\\\"", "[[[[", "//"];
         match self.rng.below(if depth == 0 { 4 } else { 6 }) {
             0 => Value::Null,
             1 => Value::Bool(self.rng.bool()),
@@ -219,6 +221,50 @@ impl Builder {
                 }
                 Value::Object(m)
             }
+        }
+    }
+
+    /// JSON documents that stress structure rather than content: many sibling arrays / objects, nesting
+    /// up to and beyond the depth a parser allows, runs of structure-like strings.
+    pub fn json_stress(&mut self) -> serde_json::Value {
+        self.json_stress_to(140)
+    }
+
+    /// `max_depth`: deepest nesting produced (serde_json reads documents up to depth 127; a typed footer
+    /// nested deeper can be written but, by serde_json's own limit, not read back)
+    pub fn json_stress_to(&mut self, max_depth: usize) -> serde_json::Value {
+        use serde_json::Value;
+        let n = *self.rng.pick(&[126usize, 127, 128, 129, 150, 300]);
+        match self.rng.below(6) {
+            0 => Value::Array((0..n).map(|i| Value::Array(vec![Value::from(format!("n{i}")), Value::from(i as u64)])).collect()),
+            1 => Value::Array((0..n).map(|i| serde_json::json!({"i": i})).collect()),
+            2 => {
+                // nested arrays, depth around the usual recursion limit
+                let d = (*self.rng.pick(&[100usize, 125, 126, 127, 128, 129, 140])).min(max_depth);
+                let mut v = Value::from(1);
+                for _ in 0..d {
+                    v = Value::Array(vec![v]);
+                }
+                v
+            }
+            3 => {
+                let d = (*self.rng.pick(&[100usize, 126, 127, 128, 129])).min(max_depth);
+                let mut v = Value::from("leaf");
+                for i in 0..d {
+                    v = if i % 2 == 0 { serde_json::json!({"k": v}) } else { Value::Array(vec![v]) };
+                }
+                v
+            }
+            4 => {
+                let pieces = ["C:\\keys\\", "}}", "]]", "{{", "[[", "\\", "\"", "\\\"", "}", "{"];
+                let mut m = serde_json::Map::new();
+                for i in 0..2 + self.rng.below(6) {
+                    let s: String = (0..1 + self.rng.below(3)).map(|_| *self.rng.pick(&pieces)).collect();
+                    m.insert(format!("s{i}"), Value::from(s));
+                }
+                Value::Object(m)
+            }
+            _ => Value::Array((0..n).map(|_| Value::Array(vec![])).collect()),
         }
     }
 
@@ -301,7 +347,11 @@ impl Builder {
             0..=3 => FootSpec::Unit,
             4..=6 => FootSpec::Bytes { bytes: self.small_bytes(80) },
             7 => FootSpec::Raw { bytes: self.small_bytes(80) },
-            _ => FootSpec::Json { value: self.json_object() },
+            8 => FootSpec::Json { value: self.json_object() },
+            _ => {
+                let v = if self.rng.bool() { self.json_object() } else { self.json_stress_to(126) };
+                FootSpec::Json { value: v }
+            }
         }
     }
 
